@@ -10,6 +10,9 @@ Part 1 (exhaustive, sharded): 7 listen hosts x 9 mode specs (tcp / udp / "both" 
 dotted and hex, 0.0.0.0, ::, the explicit listen addresses in alternative spellings, unrelated hosts) x {listen port, other
 port} x {tcp, udp}.
 Part 2 (Hypothesis): two-server configurations, random 127/8 and random other addresses, random ports.
+Part 3 (wiring, a third of a reduced table in the quick tier): the same rows are pushed through the real
+`ConnectionHandler.open_connection` with `Proxyserver.server_connect` answering the hook and both connect primitives
+replaced by recorders: "blocked" then means that no connection attempt was made and the layer got a failure reply.
 
 Oracle (independent classification, lib-free integer arithmetic):
  * "denotes own socket" (=> `server.error` must be set): same port, transport equal or the mode listens on both, and
@@ -176,14 +179,79 @@ class StubServer:
         self.is_running = True
 
 
+def wired_connect(ps, client, server, ctx):
+    """Run the real ConnectionHandler.open_connection with `ps.server_connect` answering the server_connect hook and with
+    the two connect primitives replaced (inside this process) by recorders that refuse.  Returns True when *no* connection
+    attempt was made and the layer was told that the connection failed (= the request failed instead of looping)."""
+    import asyncio
+    import mitmproxy_rs
+    from mitmproxy import options
+    from mitmproxy.proxy import commands, context, events, layer, server as pserver, server_hooks
+
+    attempts = []
+    completed = []
+
+    class Probe(layer.Layer):
+        def _handle_event(self, event):
+            if isinstance(event, events.OpenConnectionCompleted):
+                completed.append(event.reply)
+            yield from ()
+
+    class Handler(pserver.ConnectionHandler):
+        async def handle_hook(self, hook):
+            if isinstance(hook, server_hooks.ServerConnectHook):
+                ps.server_connect(hook.data)
+
+        def log(self, *a, **kw):
+            pass
+
+    async def fake_tcp(host, port, **kw):
+        attempts.append(("tcp", host, port))
+        raise OSError("refused by harness")
+
+    async def fake_udp(host, port, **kw):
+        attempts.append(("udp", host, port))
+        raise OSError("refused by harness")
+
+    async def main():
+        c = context.Context(client, options.Options())
+        h = Handler(c)
+        h.layer = Probe(c)
+        cmd = commands.OpenConnection(server)
+        await asyncio.wait_for(h.open_connection(cmd), 5)
+
+    real_tcp, real_udp = asyncio.open_connection, mitmproxy_rs.udp.open_udp_connection
+    asyncio.open_connection = fake_tcp
+    mitmproxy_rs.udp.open_udp_connection = fake_udp
+    loop = asyncio.new_event_loop()
+    try:
+        loop.run_until_complete(main())
+    except Exception as e:
+        raise HarnessError("wiring harness failed: %r" % (e,))
+    finally:
+        asyncio.open_connection = real_tcp
+        mitmproxy_rs.udp.open_udp_connection = real_udp
+        loop.close()
+    if len(completed) != 1 or completed[0] is None:
+        ctx.fail("wire:no-failure-reported", "attempts=%r completed=%r" % (attempts, completed))
+        return None
+    ctx.cls("wire: %s" % ("no connection attempt" if not attempts else "connection attempted"))
+    if bool(server.error) and attempts and not any(a[1:] == tuple(server.address[:2]) for a in attempts):
+        raise HarnessError("unexpected attempts %r" % (attempts,))
+    if not attempts and "refused by harness" in (server.error or ""):
+        raise HarnessError("inconsistent recorder")
+    return not attempts
+
+
 def check_case(case, ctx):
-    """case = [[ [mode_spec, listen_host, listen_port], ... ], dest_host, dest_port, dest_transport]"""
+    """case = [[ [mode_spec, listen_host, listen_port], ... ], dest_host, dest_port, dest_transport(, "wire")]"""
     from mitmproxy import connection
     from mitmproxy.addons.proxyserver import Proxyserver
     from mitmproxy.proxy import server_hooks
     from mitmproxy.proxy.mode_specs import ProxyMode
 
-    servers, dhost, dport, dtrans = case
+    wire = len(case) == 5 and case[4] == "wire"
+    servers, dhost, dport, dtrans = case[:4]
     ps = Proxyserver()
     inst = {}
     conf = []
@@ -203,12 +271,17 @@ def check_case(case, ctx):
     server = connection.Server(address=(dhost, dport), transport_protocol=dtrans)
     client = connection.Client(peername=("192.0.2.9", 50000), sockname=("192.0.2.1", 8080), timestamp_start=1.0,
                                transport_protocol=dtrans)
-    try:
-        ps.server_connect(server_hooks.ServerConnectionHookData(server=server, client=client))
-    except Exception as e:
-        ctx.crash(e)
-        return
-    blocked = bool(server.error)
+    if wire:
+        blocked = wired_connect(ps, client, server, ctx)
+        if blocked is None:
+            return
+    else:
+        try:
+            ps.server_connect(server_hooks.ServerConnectionHookData(server=server, client=client))
+        except Exception as e:
+            ctx.crash(e)
+            return
+        blocked = bool(server.error)
 
     rels = []
     same_port = False
@@ -293,4 +366,16 @@ def run(ctx):
                         rows += 1
     ctx.exhaustive = True
     ctx.extra["table_rows"] = rows
+    # wiring: the same oracle, but observed as "was a connection attempted" through ConnectionHandler.open_connection
+    i = 0
+    for lhost in LISTEN_HOSTS:
+        for mode in ("regular", "reverse:https://example.test", "wireguard"):
+            for dhost in DESTS:
+                i += 1
+                if i % ctx.nshards != ctx.shard or (not ctx.thorough and (i // ctx.nshards) % 3):
+                    continue
+                for dtrans in ("tcp", "udp"):
+                    ctx.cur_case = [[[mode, lhost, 8080]], dhost, 8080, dtrans, "wire"]
+                    ctx.ev()
+                    check_case(ctx.cur_case, ctx)
     hyp(ctx, strategy(ctx), check_case, ctx.n(QUICK_N, THOROUGH_N))
